@@ -110,6 +110,9 @@ theorem alignTo_sz {s s' : State} {n : Nat} (h : alignTo cfg s n = .ok s') : SzS
 theorem alignGuardDrop_sz {s s' : State} {n : Nat} (h : alignGuardDrop cfg s n = .ok s') : SzSame s s' :=
   SzSame.of_memOf (Mem.alignGuardDrop_memOf h)
 
+theorem alignChunkAt_sz {s s' : State} {n : Nat} {st : Cur} (h : alignChunkAt cfg s n st = .ok s') : SzSame s s' :=
+  SzSame.of_memOf (Mem.alignChunkAt_memOf h)
+
 theorem deallocate_sz {s s' : State} {ptr size : Nat} (h : deallocate cfg s ptr size = .ok s') : SzSame s s' :=
   SzSame.of_memOf (Mem.deallocate_memOf h)
 
@@ -439,7 +442,10 @@ theorem sizes_alignedEnter {n : Nat} (hsz : SizesIncreasing g.s)
 theorem sizes_alignedExit (hsz : SizesIncreasing g.s)
     (hs : stepCore cfg g .alignedExit = .ok (g', out)) : SizesIncreasing g'.s := by
   unfold stepCore at hs
-  split_ok hs with first | exact hsz | exact sizes_via hsz (alignGuardDrop_sz (by assumption)) (by rfl) (by rfl)
+  split_ok hs with
+    first
+    | exact hsz
+    | exact sizes_via hsz ((alignGuardDrop_sz (by assumption)).trans (alignChunkAt_sz (by assumption))) (by rfl) (by rfl)
 
 theorem sizes_scopedAlignedEnter {n : Nat} (hsz : SizesIncreasing g.s)
     (hs : stepCore cfg g (.scopedAlignedEnter n) = .ok (g', out)) : SizesIncreasing g'.s := by
